@@ -41,7 +41,7 @@ uper_encode(const asn_TYPE_descriptor_t *td,
         /* Set number of bits encoded to a firm value */
         er.encoded = (po.flushed_bytes << 3) + bits_to_flush;
 
-        if(_uper_encode_flush_outp(&po)) ASN__ENCODE_FAILED;
+        if(_uper_encode_flush_outp(&po) < 0) ASN__ENCODE_FAILED;
     }
 
     return er;
